@@ -200,6 +200,9 @@ def run(ctx) -> None:
              "directly or through an uncopied local alias")
     ctx.rule("C09.R4-first-path-segment", "the first segment of a manifest key is taken with the path separator; os.pathsep is used only on environment values")
     ctx.rule("C09.R5-absolute-paths", "a producer starting with '/' never has a stage index")
+    ctx.rule("C09.R10-application-name-drops-the-trailing-extension-only", "FlowIR.application_dependency_to_name - which decides that the first path "
+             "segment of a reference is an application dependency, and names the folder the dependency is linked under - removes the TRAILING "
+             "extension of the folder name (a cut at the last dot), never everything after the first dot")
     ctx.rule("C09.R9-caller-stage-applies", "ParseProducerReference gives a producer that carries no stage prefix the stage its caller supplies: every "
              "path to the return takes the stage from the reference itself or consults the caller's index (absolute paths apart)")
 
@@ -524,3 +527,36 @@ def run(ctx) -> None:
                "absolute spelling 'stage2.md.run/out.csv:ref' parses to stage 2 - graph.DataReference prints 'md.run:ref' as its absolute "
                "form, validate_references misses a missing producer and replication skips the consumer",
                construct="ParseProducerReference: stage from the reference or from the caller on every path")
+
+    # ---------------- R10 ------------------------------------------------------------------------------
+    # 'amber-20.1.application' is the dependency 'amber-20.1': a reference 'amber-20.1/bin/sander:ref' is a path into it, not a component.
+    # A cut at the FIRST dot names it 'amber-20': the reference is then classified as a component of the consumer's stage (and a real
+    # component called 'amber-20' as a folder).  The forms are enumerated; anything else stops the run as undecided.
+    adn = m.functions.get("FlowIR.application_dependency_to_name")
+    ctx.require(adn is not None, "anchor missing: FlowIR.application_dependency_to_name")
+    ctx.analysed(adn)
+
+    def dot_const(e: ast.AST) -> bool:
+        return isinstance(e, ast.Constant) and e.value == "."
+    right, left = [], []
+    for x in source.walk_own(adn):
+        if isinstance(x, ast.Call):
+            cn = call_name(x) or ""
+            la = last_attr(x)
+            if cn.endswith("path.splitext") or (la in ("rsplit", "rpartition", "rfind", "rindex") and x.args and dot_const(x.args[0])) or la == "with_suffix":
+                right.append(x)
+            elif la in ("split", "partition", "find", "index") and x.args and dot_const(x.args[0]):
+                left.append(x)
+        elif isinstance(x, ast.Attribute) and x.attr == "stem":
+            right.append(x)
+    ctx.require(bool(right or left), "C09.R10: application_dependency_to_name removes the extension in a form the rule does not know (not decided)")
+    for x in left:
+        ctx.ob("C09.R10-application-name-drops-the-trailing-extension-only", x, False,
+               "application_dependency_to_name cuts the folder name at the FIRST dot (%s): 'amber-20.1.application' becomes 'amber-20', so "
+               "'amber-20.1/bin/sander:ref' is classified as a component of the consumer's stage (validation reports an unknown reference on a "
+               "valid workflow) and a component called 'amber-20' as a direct path" % short(x, 50),
+               construct="application_dependency_to_name: the extension is cut at the last dot")
+    if not left:
+        ctx.ob("C09.R10-application-name-drops-the-trailing-extension-only", right[0], True,
+               "the name of an application dependency is its folder name minus the trailing extension (%s)" % short(right[0], 50),
+               construct="application_dependency_to_name: the extension is cut at the last dot")
